@@ -48,7 +48,37 @@ type debSUT struct {
 	nsend    int
 	stuck    bool
 	started  bool
+	t0       time.Time // start of the case (monotonic); trace times are microseconds since then
+	trace    []string  // observed events in the order they were logged (under mu)
+	traceOut *wire.Out // where `end` writes the trace line (exec only)
 }
+
+// viewCanon prints a request the way the Lean driver prints a model value (showViewCanon).
+func (s *debSUT) viewCanon(r *model.PushRequest) string {
+	set := func(isNil bool, l []string) string {
+		if isNil {
+			return "nil"
+		}
+		return wire.EncSet(l)
+	}
+	rsn := "nil"
+	if r.Reason != nil {
+		rsn = showRsn(r.Reason)
+	}
+	push := "nil"
+	if r.Push != nil {
+		if n, ok := s.h.pcIdx[r.Push]; ok {
+			push = "p" + strconv.Itoa(n)
+		} else {
+			push = "p?"
+		}
+	}
+	return fmt.Sprintf("c=%s;a=%s;w=%s;r=%s;p=%s;f=%s", set(r.ConfigsUpdated == nil, cfgList(r.ConfigsUpdated)),
+		set(r.AddressesUpdated == nil, adrList(r.AddressesUpdated)), set(r.WaypointsUpdated == nil, wpList(r.WaypointsUpdated)),
+		rsn, push, wire.B(r.Forced))
+}
+
+func (s *debSUT) micros() int64 { return time.Since(s.t0).Microseconds() }
 
 type pushRec struct {
 	req   *model.PushRequest
@@ -62,7 +92,7 @@ var degraded atomic.Bool
 
 func patience() time.Duration {
 	if degraded.Load() {
-		return 400 * time.Millisecond
+		return time.Second
 	}
 	if v := os.Getenv("C02_PATIENCE_MS"); v != "" { // set by the check while shrinking an already failing case
 		if n, err := strconv.Atoi(v); err == nil && n > 0 {
@@ -76,7 +106,7 @@ func newDebSUT(afterMs, maxMs int, eds bool) *debSUT {
 	return &debSUT{
 		mergeSUT: *newMergeSUT(), after: time.Duration(afterMs) * time.Millisecond, max: time.Duration(maxMs) * time.Millisecond, eds: eds,
 		ch: make(chan *model.PushRequest), stop: make(chan struct{}), exited: make(chan struct{}), sent: atomic.NewInt64(0),
-		gate: make(chan struct{}), allSent: sets.New[string](),
+		gate: make(chan struct{}), allSent: sets.New[string](), t0: time.Now(),
 	}
 }
 
@@ -89,10 +119,13 @@ func (s *debSUT) pushFn(req *model.PushRequest) {
 	rec := pushRec{req: req, facts: reqFacts(req)}
 	if s.isBypass(req) {
 		s.bypass = append(s.bypass, rec)
+		s.trace = append(s.trace, "E|"+s.viewCanon(req))
 		s.mu.Unlock()
 		return
 	}
 	s.pushes = append(s.pushes, rec)
+	// +1: rounded up, the time is only used as an upper bound of when the loop decided to push
+	s.trace = append(s.trace, fmt.Sprintf("P|%s|%d", s.viewCanon(req), s.micros()+1))
 	s.inflight++
 	if s.inflight > s.maxIn {
 		s.maxIn = s.inflight
@@ -107,6 +140,7 @@ func (s *debSUT) pushFn(req *model.PushRequest) {
 	}
 	s.mu.Lock()
 	s.inflight--
+	s.trace = append(s.trace, "X")
 	s.mu.Unlock()
 }
 
@@ -239,6 +273,8 @@ func (s *debSUT) apply(f []string) (out string) {
 		r := s.h.reqs[i]
 		s.mu.Lock()
 		s.nsend++
+		// logged before the request is offered: a lower bound of the loop's lastConfigUpdateTime
+		s.trace = append(s.trace, fmt.Sprintf("S|%d|%d", i, s.micros()))
 		s.allSent.Merge(reqFacts(r))
 		if !s.isBypass(r) {
 			s.sends = append(s.sends, reqFacts(r))
@@ -280,8 +316,19 @@ func (s *debSUT) apply(f []string) (out string) {
 		return "ok"
 	case "end":
 		r := s.finish()
-		return fmt.Sprintf("facts=%s events=%d sent=%d quiescent=%s single=%s batches=%s unmutated=%s",
-			wire.EncSet(sets.SortedList(r.facts)), r.events, r.sent, wire.B(r.quiescent), wire.B(r.single), wire.B(r.batches), wire.B(r.unmutated))
+		s.mu.Lock()
+		tr := append(append([]string{"trace"}, s.trace...), fmt.Sprintf("U|%d", r.sent))
+		s.mu.Unlock()
+		if s.traceOut != nil {
+			s.traceOut.Line(tr...)
+			s.traceOut.Flush()
+		}
+		v := "OK"
+		if c, _ := s.verdictOf(r); c != "" {
+			v = "FAIL:" + c
+		}
+		return fmt.Sprintf("facts=%s events=%d sent=%d quiescent=%s single=%s batches=%s unmutated=%s verdict=%s",
+			wire.EncSet(sets.SortedList(r.facts)), r.events, r.sent, wire.B(r.quiescent), wire.B(r.single), wire.B(r.batches), wire.B(r.unmutated), v)
 	}
 	return s.mergeSUT.apply(f)
 }
@@ -325,7 +372,11 @@ func genDebounceCase(r *wire.Rng, c int, out *wire.Out) {
 			rsn = strconv.Itoa(nr)
 			nr++
 		}
-		out.Line("req", cfg, adr, wp, rsn, "nil", "0", "0", wire.B(r.Chance(1, 4)))
+		push := "nil" // debounced requests normally carry no snapshot yet; some do, to exercise "newest"
+		if r.Chance(1, 4) {
+			push = strconv.Itoa(1 + r.Intn(3))
+		}
+		out.Line("req", cfg, adr, wp, rsn, push, "0", "0", wire.B(r.Chance(1, 4)))
 	}
 	if n >= 2 && r.Chance(2, 5) {
 		// the overlap the property is about: updates arrive while a (held) push is running
@@ -410,30 +461,32 @@ func oracleDebounce(in, outp string) {
 			continue
 		}
 		r := s.finish()
-		fail := func(c, d string) {
-			if verdict == "" {
-				verdict = "FAIL " + c + " " + wire.Enc(d)
-			}
-		}
-		switch {
-		case !r.quiescent:
-			fail("accepted-update-never-pushed", fmt.Sprintf("updateSent=%d of %d events", r.sent, r.events))
-		case !r.facts.Equals(s.allSent):
-			lost := s.allSent.Difference(r.facts)
-			if len(lost) > 0 {
-				fail("update-lost-or-weakened", fmt.Sprintf("lost=%v", sets.SortedList(lost)))
-			} else {
-				fail("pushed-more-than-received", fmt.Sprintf("extra=%v", sets.SortedList(r.facts.Difference(s.allSent))))
-			}
-		case r.sent != int64(r.events):
-			fail("committed-count", fmt.Sprintf("updateSent=%d events=%d", r.sent, r.events))
-		case !r.single:
-			fail("two-debounced-pushes-in-flight", "")
-		case !r.batches:
-			fail("push-is-not-a-merge-of-consecutive-updates", "")
-		case !r.unmutated:
-			fail("request-written-after-hand-off", r.detail)
+		if c, d := s.verdictOf(r); c != "" && verdict == "" {
+			verdict = "FAIL " + c + " " + wire.Enc(d)
 		}
 	}
 	flush()
+}
+
+// verdictOf evaluates the property clauses on what one real run was observed to do.
+func (s *debSUT) verdictOf(r debResult) (clause, detail string) {
+	switch {
+	case !r.quiescent:
+		return "accepted-update-never-pushed", fmt.Sprintf("updateSent=%d of %d events", r.sent, r.events)
+	case !r.facts.Equals(s.allSent):
+		lost := s.allSent.Difference(r.facts)
+		if len(lost) > 0 {
+			return "update-lost-or-weakened", fmt.Sprintf("lost=%v", sets.SortedList(lost))
+		}
+		return "pushed-more-than-received", fmt.Sprintf("extra=%v", sets.SortedList(r.facts.Difference(s.allSent)))
+	case r.sent != int64(r.events):
+		return "committed-count", fmt.Sprintf("updateSent=%d events=%d", r.sent, r.events)
+	case !r.single:
+		return "two-debounced-pushes-in-flight", ""
+	case !r.batches:
+		return "push-is-not-a-merge-of-consecutive-updates", ""
+	case !r.unmutated:
+		return "request-written-after-hand-off", r.detail
+	}
+	return "", ""
 }
